@@ -292,11 +292,37 @@ def _rule_skip_normalisation(check, repo: Repo) -> None:
     wrapped into a list first (a bare string would otherwise be split into characters)."""
     from ..core.cfg import CFG
     n = 0
+    n_mut = 0
     for q in (f"{SER}:AutoSerialize.save", f"{SER}:load", f"{PTY}:Ptychography.save"):
         m, fn = repo.func(q)
         if "skip" not in [a.arg for a in fn.args.args + fn.args.kwonlyargs]:
             raise AnalysisError(f"{q}: no 'skip' parameter")
         cfg = CFG(fn)
+        # the caller's skip list is not modified: every in-place extension of `skip` is preceded, on every path, by a rebinding to a fresh list
+        # (a caller who reuses one list for several saves / loads would otherwise accumulate names that were never asked for)
+        fresh = []
+        for nd in cfg.nodes:
+            if nd.kind == "stmt" and isinstance(nd.stmt, ast.Assign) and any(dotted(t) == "skip" for t in nd.stmt.targets):
+                v = nd.stmt.value
+                if (isinstance(v, ast.Call) and call_name(v) in ("list", "sorted")) or isinstance(v, (ast.List, ast.ListComp)) or \
+                        (isinstance(v, ast.BinOp) and isinstance(v.op, ast.Add)):
+                    fresh.append(nd.id)
+        for nd in cfg.nodes:
+            if nd.kind != "stmt":
+                continue
+            mut = None
+            if isinstance(nd.stmt, ast.Expr) and isinstance(nd.stmt.value, ast.Call) and isinstance(nd.stmt.value.func, ast.Attribute) \
+                    and dotted(nd.stmt.value.func.value) == "skip" and nd.stmt.value.func.attr in ("extend", "append", "insert", "remove", "pop", "clear", "sort", "reverse"):
+                mut = unparse(nd.stmt.value)[:50]
+            elif isinstance(nd.stmt, ast.AugAssign) and dotted(nd.stmt.target) == "skip":
+                mut = unparse(nd.stmt)[:50]
+            if mut is None:
+                continue
+            n_mut += 1
+            ok = cfg.all_paths_pass_through(cfg.entry, nd.id, fresh)
+            check.decide(ok, "C14-R7", f"{q.split(':')[1]}: `{mut}` acts on a private copy of the skip argument on every path", "", m.line(nd.stmt), definite=True,
+                         fail_detail=f"`{mut}` is reachable without `skip` having been rebound to a fresh list: the caller's own list object is extended, and a list reused for a "
+                                     f"later save or load silently skips the added names as well")
         # iteration sites of skip: comprehension over skip, list(skip)/tuple(skip)/set(skip), for-loops
         sites = []
         for node in walk_no_nested_defs(fn):
@@ -347,6 +373,7 @@ def _rule_skip_normalisation(check, repo: Repo) -> None:
                                          + ("split into characters and the named attribute is not skipped" if kind == "str"
                                             else "not iterable"))
     check.floor("skip iteration sites", n, 5)
+    check.floor("in-place extensions of the skip argument", n_mut, 1)
 
 
 def _closure(fn: ast.AST, expr: ast.AST) -> tuple[set[str], set[str]]:
@@ -380,3 +407,4 @@ MANIFEST = {
     "technique": "CFG dominance of guards + call-edge argument forwarding + key-set agreement (AST)",
 }
 MANIFEST["text"] += ' The delattr sweep over skip_names runs after every restoration loop.'
+MANIFEST["text"] += ' R7 also: every in-place extension of the skip argument is preceded on every path by a rebinding to a fresh list (must-pass-through on the CFG).'
